@@ -306,7 +306,11 @@ pub(crate) fn recv_batch_sync<T: Send>(
       let mut guard = receiver.shared.internal.lock();
       guard.waiting_sync_receivers.retain(|w| w.state != done_ptr);
       drop(guard);
-      return Err(RecvError::Disconnected);
+      // The last sender closed while we were parked. Values it sent before
+      // closing may still be buffered (another waiter was woken for them but
+      // has not run yet): loop once more so they are drained before
+      // Disconnected is reported.
+      continue;
     }
   }
 }
@@ -358,7 +362,11 @@ pub(crate) fn recv_sync<T: Send>(receiver: &Receiver<T>) -> Result<T, RecvError>
       let mut guard = receiver.shared.internal.lock();
       guard.waiting_sync_receivers.retain(|w| w.state != done_ptr);
       drop(guard);
-      return Err(RecvError::Disconnected);
+      // The last sender closed while we were parked. Values it sent before
+      // closing may still be buffered (another waiter was woken for them but
+      // has not run yet): loop once more so they are drained before
+      // Disconnected is reported.
+      continue;
     }
   }
 }
